@@ -180,6 +180,9 @@ def enc_blocktype(bt):
 def enc_instr(e, ins, path):
     op = ins[0]
     out = list(OPS[op])
+    if len(out) == 2:
+        # the number behind a 0xFC / 0xFE prefix is a u32 like any other (it may be padded)
+        out = [out[0]] + e.u(out[1], path + ".subop")
     if op in ("block", "loop", "if"):
         out += enc_blocktype(ins[1] if len(ins) > 1 else "")
     elif op in ("br", "br_if"):
